@@ -276,7 +276,44 @@ def root(x: f32[{N}], y: f32[{N}], z: f32[{N}]):
 """
     return GenProgram(HEADER + text, "root", ["cp"], [], {"template": "sibling_ranges", "prefer_ops": ["simplify", "unroll_loop", "fuse", "reorder_stmts"]})
 
-ALL = [t_negdiv, t_negdiv, t_window_chain, t_window_chain, t_scoped_allocs, t_const_windows, t_mixed_prec, t_mixed_prec, t_index_identities, t_index_identities, t_sibling_ranges, t_sibling_ranges]
+
+def t_window_forms(rng):
+    """windows whose address computation the backend has to get right from scratch every time:
+    buffers of one spelling but different shapes declared in sibling scopes, each windowed at a
+    non-zero row and handed to a callee; window (and point) indices that are sums of quotients /
+    remainders in a dimension whose stride is not 1"""
+    a, b = rng.sample([4, 6, 8, 12], 2)
+    r1, r2 = _c(rng, [1, 2]), _c(rng, [1, 2])
+    nm = _c(rng, ["tile", "t", "buf"])
+    idx = _c(rng, ["i / 2 + j / 2", "i / 2 + j / 2", "i % 2 + j / 2", "i / 2 + j % 2", "(i + j) / 2", "i % 2 + j / 2", "i / 2 + 1", "1 + j / 2"])
+    text = f"""@proc
+def cp(n: size, dst: [f32][n], src: [f32][n]):
+    for k in seq(0, n):
+        dst[k] = src[k]
+
+
+@proc
+def root(x: f32[4, 12], y: f32[4, 12]):
+    for i in seq(0, 2):
+        {nm}: f32[3, {a}]
+        for p in seq(0, 3):
+            for q in seq(0, {a}):
+                {nm}[p, q] = x[p, q] + 1.0
+        cp({min(a, 4)}, y[i, 0:{min(a, 4)}], {nm}[{r1}, 0:{min(a, 4)}])
+    for i in seq(0, 2):
+        {nm}: f32[3, {b}]
+        for p in seq(0, 3):
+            for q in seq(0, {b}):
+                {nm}[p, q] = x[p, q] * 2.0
+        cp({min(b, 4)}, y[i + 2, 0:{min(b, 4)}], {nm}[{r2}, 0:{min(b, 4)}])
+    for i in seq(0, 4):
+        for j in seq(0, 4):
+            cp(4, y[{idx}, 4:8], x[{idx}, 8:12])
+            y[{idx}, 11] = x[{idx}, 0]
+"""
+    return GenProgram(HEADER + text, "root", ["cp"], [], {"template": "window_forms", "prefer_ops": ["inline", "simplify", "unroll_loop"]})
+
+ALL = [t_negdiv, t_negdiv, t_window_chain, t_window_chain, t_scoped_allocs, t_const_windows, t_mixed_prec, t_mixed_prec, t_index_identities, t_index_identities, t_sibling_ranges, t_sibling_ranges, t_window_forms, t_window_forms]
 
 
 def any_ctemplate(rng):
